@@ -861,12 +861,12 @@ class XMLConverter(PDFConverter[AnyIO]):
                     name = self.imagewriter.export_image(item)
                     self.write(
                         '<image src="%s" width="%d" height="%d" />\n'
-                        % (enc(name), item.width, item.height),
+                        % (enc(name), _finite(item.width), _finite(item.height)),
                     )
                 else:
                     self.write(
                         '<image width="%d" height="%d" />\n'
-                        % (item.width, item.height),
+                        % (_finite(item.width), _finite(item.height)),
                     )
             else:
                 assert False, str(("Unhandled", item))
